@@ -20,7 +20,9 @@ P = {
          "Trusts go/types, go/ssa, VTA, the compiler's prove pass, and the stated contracts (json.Unmarshal container shapes; typed ExtraData invariant)."),
  "C09": (False, "edge-cut inside the verifier closure; role/option agreement tables; who-may on InsecureSkipVerify and ReceptorVerifyFunc call sites", "", ""),
  "C10": (False, "single relay site (who-may), positive-budget edge cut, decrement value identity, expiry notice constants", "", ""),
- "C11": (False, "edge-cut on the single connection-table insertion; removal on every exit after insertion; lockset atomicity of scan+insert", "", ""),
+ "C11": (True, "SSA edge cuts with flag threading on the single connection-table insertion (admission tests), lockset atomicity of presence scan + insertion, removal on every exit after insertion and never before it, who-may tables, disconnect-on-mismatch path rules",
+         "Decides, for every handshake byte sequence and every schedule, the structural clauses of C11 in runProtocol: one insertion site and one deletion site for the connection table; the insertion is unreachable unless the announced ID is non-empty, differs from the local ID, is on the allow-list when one is set, and the presence scan completed without a hit; scan and insertion share one connLock write section with no release in between; the announced ID is never removed before this session inserted it; every exit after the insertion passes removeConnection with the session's ID; routing updates are handed on only under the established ID; an ID change, a cost disagreement or a reject message leaves the receive loop; self-shutdown needs a duplicate notice naming our epoch. It does not decide outcomes of real handshake races between two nodes.",
+         "Trusts go/types, go/ssa, sync.RWMutex semantics; path feasibility is approximated by threading boolean flag phis and constant bool cells only."),
  "C12": (True, "error-flow in rule construction, case-set agreement tables, anchored-regex format, SSA edge cuts: rule evaluation dominates every delivery/forward/notify, Drop/Reject arms cannot reach delivery",
          "Decides, for every rule set and packet, the structural clauses of C12: no error of the rule builders can be dropped (a bad pattern cannot silently widen a rule); parser, literal matcher, regex matcher and BuildComps share one field vocabulary wired to the right packet fields; unknown keys/actions/non-string values only reach failing returns; /regex/ is compiled between ^( and )$; in handleMessageData the merged rule result dominates dispatch, listener delivery, forwarding and notices, the loop stops at the first non-Continue result, the only constant default is Accept, the Drop arm reaches nothing and the Reject arm reaches only the 'blocked by firewall' notice. It does not decide regexp semantics or notice delivery over the mesh.",
          "Trusts go/types, go/ssa, regexp and fmt.Sprintf semantics as stated in the evidence file."),
